@@ -1667,6 +1667,18 @@ func (m *Monitor) checkC13(g *Gen, w []string, out string, b, a *snapshot) {
 			newest := map[string]uint64{}
 			for _, r := range appliedEvents(b, a, c) {
 				if ev, ok := r.event.(*types.BatchExecutedEvent); ok {
+					stored := false
+					for _, x := range b.batches[c] {
+						if x.extToken == ev.ExternalCoinId && x.nonce == ev.BatchNonce {
+							stored = true
+						}
+					}
+					if !stored {
+						// a claim about a batch the hub does not store (the ledger profile takes its claims out of thin air) changes
+						// nothing, in particular it withdraws no older batch
+						g.stats["C13:execution-event-for-a-batch-the-hub-does-not-store"]++
+						continue
+					}
 					if c != "minter" && ev.BatchNonce < newest[ev.ExternalCoinId] {
 						g.stats["C13:execution-event-for-a-batch-withdrawn-earlier-in-the-block"]++
 						continue
